@@ -631,6 +631,15 @@ func mkReads(r *vc.Rand, c *stCase, pattern []int, extra int) {
 			}
 		}
 	}
+	owed := 0
+	for _, f := range frames {
+		owed += f
+	}
+	if owed > 5000 && pattern[0] < 50 {
+		// many tiny reads of a large frame make the model walk its buffer again for every read:
+		// keep the tiny sizes, interleaved with a mid-sized one
+		pattern = append([]int{1000 + r.Intn(3000)}, pattern...)
+	}
 	var rd []int
 	k := 0
 	next := func() int { p := pattern[k%len(pattern)]; k++; return p }
